@@ -6,6 +6,8 @@ TECH = 'bounded symbolic execution of rustc MIR (own path-wise VM), z3-decided a
 CLAIMED = {
  'C14': dict(text='Bounded model checking by symbolic execution of the real MIR of Val::{equals,compare,cmp_coerced,is_truthy,inc} and binary_operator_fold::op: every law is discharged by z3 on every feasible path over two lazily symbolic values (all kinds, all doubles, all strings, arrays <= 2/3 elements).  Not a proof: bounds on array size/nesting; std is modelled.',
              ref='DESIGN.md §4 C14', note='Trusted: MIR text semantics as implemented by mirsym (validated per run against the native build on ~6000 operand vectors), std models (§2.4), z3 5.1.  Strings are opaque sequences with parse::<f64> uninterpreted.'),
+ 'C02': dict(text='Bounded model checking of the real lexer + parser (frontend::parser::parse from MIR): (a) every alternative of every keyword / phrase slot, three case styles, a symbolic ignorable character (solver-forked over all blanks and all non-token ignorable punctuation, spaced and glued) and one / two comments at every token boundary of base programs covering all 18 statement kinds must give the canonical tree with positions erased; (b) 650+ expressions (all 13 x 13 operator pairs in worded and symbolic spellings, unary / list / subscript variants) must parse to the tree of a reference precedence-climbing parser; (c) control-flow layouts parse to their own nesting; (d) number literals denote float(text), string literals of <= 2 symbolic characters denote exactly those characters.',
+             ref='DESIGN.md §9.6', note='The spelling table (aliases, phrases, separators) is the reference and lives in mirsym/props/C02.py; chains mixing worded and symbolic comparisons, poetic literals (C11) and identifier case (C15) are outside.'),
  'C03': dict(text='Bounded model checking of the real evaluator kernels (plus/subtract/multiply/divide/negate/equals/compare/is_truthy/to_string_for_output, binary_operator_fold incl. short-circuit and list fold, ProduceVal::visit_unary_expression) against a reference coercion table: z3 compares result kind, payload term, error class and evaluated thunks on every feasible path over all 13 operators x 36 kind pairs with symbolic payloads.',
              ref='DESIGN.md §4 C03', note='Trusted: std models, z3; the reference table is validated per run against golden answers recorded from the pinned tree (props/C03_golden.json) and the VM against the current native build.  Expression nesting depth 1 (evaluator is compositional); variables/statements are C04/C05.'),
  'C06': dict(text='One inductive step from an arbitrary shared state: an arbitrary Val and its derived clone (shared Rc), one array operation on the clone executed from MIR; z3/structural comparison with a reference array model, the original compared with its snapshot (independence), and no panic/UB edge reachable.',
